@@ -32,7 +32,7 @@ parse1(int argc, char ** argv, int abandon)
 	const char * ch;
 	int n = 0;
 
-	while ((abandon < 0 || n < abandon) && n < 200 && (ch = GETOPT(argc, argv)) != NULL) {
+	while ((abandon < 0 || n < abandon) && n < 2000 && (ch = GETOPT(argc, argv)) != NULL) {
 		n++;
 		GETOPT_SWITCH(ch) {
 		GETOPT_OPT("-a"):
@@ -63,7 +63,7 @@ parse2(int argc, char ** argv, int abandon)
 	const char * ch;
 	int n = 0;
 
-	while ((abandon < 0 || n < abandon) && n < 200 && (ch = GETOPT(argc, argv)) != NULL) {
+	while ((abandon < 0 || n < abandon) && n < 2000 && (ch = GETOPT(argc, argv)) != NULL) {
 		n++;
 		GETOPT_SWITCH(ch) {
 		GETOPT_OPT("-a"):
@@ -92,7 +92,7 @@ parse3(int argc, char ** argv, int abandon)
 	const char * ch;
 	int n = 0;
 
-	while ((abandon < 0 || n < abandon) && n < 200 && (ch = GETOPT(argc, argv)) != NULL) {
+	while ((abandon < 0 || n < abandon) && n < 2000 && (ch = GETOPT(argc, argv)) != NULL) {
 		n++;
 		GETOPT_SWITCH(ch) {
 		GETOPT_OPT("-x"):
